@@ -4,7 +4,7 @@
 use crate::model::civil;
 use crate::util::day_to_ndt;
 use proptest::prelude::*;
-use rateslib::calendars::{get_calendar_by_name, Cal, CalType, NamedCal, UnionCal};
+use rateslib::calendars::{get_calendar_by_name, Cal, CalType, DateRoll, NamedCal, UnionCal};
 use serde::{Deserialize, Serialize};
 
 pub const BUILTIN: [&str; 14] = [
@@ -47,6 +47,16 @@ pub fn builtin_cal(name: &str) -> Cal {
             .entry(name.to_string())
             .or_insert_with(|| get_calendar_by_name(name).expect("builtin calendar name"))
             .clone()
+    })
+}
+
+/// `is_bus_day` of a built-in plain calendar, without cloning it out of the cache.
+pub fn builtin_is_bus(name: &str, z: i64) -> bool {
+    BUILTIN_CACHE.with(|c| {
+        c.borrow_mut()
+            .entry(name.to_string())
+            .or_insert_with(|| get_calendar_by_name(name).expect("builtin calendar name"))
+            .is_bus_day(&day_to_ndt(z))
     })
 }
 
@@ -122,6 +132,28 @@ impl AnyCal {
                 } else {
                     "cal:named"
                 }
+            }
+        }
+    }
+    /// Model of the combination rule, from the parts: (business day, valid settlement day) by the
+    /// definition "business day in every member" / "business day in every settlement calendar
+    /// (always, if there are none)". Custom parts are decided by the spec itself, built-in parts
+    /// by the plain built-in calendar object (a leaf, not a combination).
+    pub fn model_eligibility(&self, z: i64) -> (bool, bool) {
+        let member = |m: &MemberSpec| match m {
+            MemberSpec::Custom(c) => c.is_bus(z),
+            MemberSpec::Builtin(n) => builtin_is_bus(n, z),
+        };
+        match self {
+            AnyCal::Cal(c) => (c.is_bus(z), true),
+            AnyCal::Union(u) => (u.members.iter().all(member), u.settle.as_ref().map_or(true, |v| v.iter().all(member))),
+            AnyCal::Named(n) => {
+                let lower = n.to_lowercase();
+                let mut halves = lower.split('|');
+                let leaf = |name: &str| builtin_is_bus(name, z);
+                let bus = halves.next().map_or(true, |h| h.split(',').all(leaf));
+                let settle = halves.next().map_or(true, |h| h.split(',').all(leaf));
+                (bus, settle)
             }
         }
     }
